@@ -317,6 +317,22 @@ theorem v2_drop_terminates (st : V2c M O) (hc : st.closed = true) :
     ∃ n, (V2c.tasks n st).finished = true :=
   V2c.terminates st hc
 
+/-- (which publications count) The channel history — against which `after` is computed in
+`v2_drop_delivers_all` — is exactly the sequence of `send` / `subscribe` calls made BEFORE
+the (first) drop, in call order; nothing attempted after the drop is recorded anywhere. -/
+theorem v2_drop_hist (ad : Bool) (ops : List (Op2c M O)) :
+    ((V2c.init M O ad).run ops).base.hist.map Cmd.data? =
+      (ops.takeWhile Op2c.live).filterMap shape2c := by
+  have := V2c.hist_run' (V2c.init M O ad) rfl ops
+  rw [this]; rfl
+
+/-- (which publications count, v1) `pubs` — against which `after` is computed in
+`v1_drop_delivers` — is exactly the `send` calls made before the drop. -/
+theorem v1_drop_pubs (cap : Nat) (ops : List (Op1c M O)) :
+    ((V1c.init M O cap).run ops).base.pubs = (ops.takeWhile Op1c.live).filterMap pub1c := by
+  have := V1c.pubs_run' (V1c.init M O cap) rfl ops
+  rw [this]; rfl
+
 theorem v1_drop_simulation (cap : Nat) (ops : List (Op1c M O)) :
     ∃ ops', ((V1c.init M O cap).run ops).base = (V1.init M O cap).run ops' :=
   V1c.run_base _ ops
@@ -447,6 +463,8 @@ example : demo1c.base.fwds.map (fun f => (f.got, f.ended)) = [([2, 3, 4, 5], fal
 #print axioms C16.v2_drop_progress
 #print axioms C16.v2_drop_terminates
 #print axioms C16.v1_drop_simulation
+#print axioms C16.v2_drop_hist
+#print axioms C16.v1_drop_pubs
 #print axioms C16.v1_drop_delivers
 #print axioms C16.v1_drop_final
 #print axioms C16.v1_drop_progress
